@@ -1,0 +1,450 @@
+//go:build verif
+// +build verif
+
+package raft
+
+// Verification hook for the CONTROL FLOW of replication.replicate (build tag verif).
+//
+// RunProbe runs the real r.replicate(c, req) in a goroutine over a scripted in-memory
+// connection. Every complete request the loop writes (appendReq + entries, or
+// installSnapReq + snapshot bytes) is decoded and handed to the harness; the bytes the loop
+// reads next are the response the harness supplies for it. The harness never plays the
+// loop: the probe loop, the fall-back to sendInstallSnapReq, checkLeaderUpdate and the
+// switch to pipelining are the library's. A run ends when the first request written by the
+// pipeline writer has been answered, when replicate returns, or when a bound is hit (number
+// of exchanges, watchdog) - a loop that spins is reported, it does not hang the harness.
+// Nothing here changes behaviour of the library.
+
+import (
+	"bufio"
+	"bytes"
+	"encoding/json"
+	"io"
+	"runtime"
+	"strings"
+	"sync"
+	"time"
+)
+
+// VProbeReq is one complete request written by replicate.
+type VProbeReq struct {
+	Kind string `json:"kind"` // append | install | garbage
+	// Pipelined: the request was written by the pipeline writer goroutine of replicate
+	// (observed on the call stack of the Write), i.e. the probe phase is over.
+	Pipelined bool         `json:"pipelined"`
+	Append    *VAppendReq  `json:"append,omitempty"`
+	Install   *VInstallReq `json:"install,omitempty"`
+	// St is the replication's state at the moment the request was complete (taken on the
+	// goroutine that wrote it).
+	St  VReplState `json:"st"`
+	Bad string     `json:"bad,omitempty"` // framing problem seen while decoding
+}
+
+// VProbeResp is what the harness lets the loop read.
+type VProbeResp struct {
+	Kind         string `json:"kind"` // append | install | eof (connection dropped, nothing to read)
+	Term         uint64 `json:"term"`
+	Result       uint64 `json:"result"`
+	LastLogIndex uint64 `json:"lastLogIndex"`
+}
+
+// VProbeExchange is a request with the response supplied for it.
+type VProbeExchange struct {
+	Req  VProbeReq  `json:"req"`
+	Resp VProbeResp `json:"resp"`
+}
+
+// VProbeCfg bounds one run.
+type VProbeCfg struct {
+	HbTimeout    time.Duration // replication.hbTimeout for the run (drain timeouts are hbTimeout/2)
+	MaxExchanges int           // the run is stopped when the loop writes more requests than this
+	Watchdog     time.Duration // the run is stopped when neither a request nor the end shows up for so long
+}
+
+// VProbeReport is what one run of replicate did.
+type VProbeReport struct {
+	Exchanges []VProbeExchange `json:"exchanges"`
+	St        VReplState       `json:"st"`
+	Notes     []VReplNote      `json:"notes"`
+	Err       string           `json:"err"`   // class of the error replicate returned ("" while it did not return)
+	Panic     string           `json:"panic"` // class of a panic of replicate's goroutine
+	// End: returned (replicate returned by itself) | pipelined (stopped by the harness after the first
+	// pipelined request was answered) | maxExchanges | watchdog (stopped by the harness: the loop spins) |
+	// stuck (replicate did not return after stopCh was closed)
+	End string `json:"end"`
+	// Unanswered: the request that exceeded MaxExchanges (not answered), if any
+	Unanswered *VProbeReq `json:"unanswered,omitempty"`
+	Extra      int        `json:"extra"` // requests written after the run's last answered request
+}
+
+// VLeaderUpd is the content of a leaderUpdate (Lean: Repl.onLeaderUpdate's arguments).
+type VLeaderUpd struct {
+	Prev   uint64 `json:"prev"`
+	Last   uint64 `json:"last"`
+	Commit uint64 `json:"commit"`
+	Voter  *bool  `json:"voter,omitempty"`
+}
+
+type verifScriptConn struct {
+	verifConn
+	v *VerifRepl
+
+	mu      sync.Mutex
+	wbuf    []byte
+	events  []VProbeReq
+	notify  chan struct{}
+	in      chan []byte
+	cur     []byte
+	closed  chan struct{}
+	closeMu sync.Once
+}
+
+func newVerifScriptConn(v *VerifRepl) *verifScriptConn {
+	return &verifScriptConn{v: v, notify: make(chan struct{}, 1), in: make(chan []byte, 64), closed: make(chan struct{})}
+}
+
+// verifInPipelineWriter: is the caller running inside a closure of replication.replicate
+// (the only closure of replicate that writes is the pipeline writer)?
+func verifInPipelineWriter() bool {
+	pc := make([]uintptr, 48)
+	n := runtime.Callers(2, pc)
+	frames := runtime.CallersFrames(pc[:n])
+	for {
+		f, more := frames.Next()
+		if strings.Contains(f.Function, "(*replication).replicate.func") {
+			return true
+		}
+		if !more {
+			return false
+		}
+	}
+}
+
+func verifShort(err error) bool { return err == io.EOF || err == io.ErrUnexpectedEOF }
+
+// parse decodes one complete request from the head of wbuf. ok=false: more bytes are needed.
+func (c *verifScriptConn) parse() (q VProbeReq, used int, ok bool) {
+	rd := bytes.NewReader(c.wbuf)
+	typ, err := rd.ReadByte()
+	if err != nil {
+		return q, 0, false
+	}
+	switch rpcType(typ) {
+	case rpcAppendEntries:
+		a := &appendReq{}
+		if err := a.decode(rd); err != nil {
+			if verifShort(err) {
+				return q, 0, false
+			}
+			return VProbeReq{Kind: "garbage", Bad: "appendReq.decode"}, len(c.wbuf), true
+		}
+		va := &VAppendReq{Term: a.term, Src: a.src, PrevLogIndex: a.prevLogIndex, PrevLogTerm: a.prevLogTerm,
+			LdrCommitIndex: a.ldrCommitIndex, Entries: []VEntry{}}
+		for i := uint64(0); i < a.numEntries; i++ {
+			e := &entry{}
+			if err := e.decode(rd); err != nil {
+				if verifShort(err) {
+					return q, 0, false
+				}
+				return VProbeReq{Kind: "garbage", Bad: "entry.decode"}, len(c.wbuf), true
+			}
+			va.Entries = append(va.Entries, ventry(e))
+		}
+		return VProbeReq{Kind: "append", Append: va}, len(c.wbuf) - rd.Len(), true
+	case rpcInstallSnap:
+		s := &installSnapReq{}
+		if err := s.decode(rd); err != nil {
+			if verifShort(err) {
+				return q, 0, false
+			}
+			return VProbeReq{Kind: "garbage", Bad: "installSnapReq.decode"}, len(c.wbuf), true
+		}
+		if s.size < 0 || int64(rd.Len()) < s.size {
+			return q, 0, false
+		}
+		data := make([]byte, s.size)
+		_, _ = io.ReadFull(rd, data)
+		vi := &VInstallReq{Term: s.term, Src: s.src, LastIndex: s.lastIndex, LastTerm: s.lastTerm,
+			LastConfig: VerifConfig(s.lastConfig), Data: []string{}}
+		q = VProbeReq{Kind: "install", Install: vi}
+		var applied []string
+		if jerr := json.Unmarshal(data, &applied); jerr != nil {
+			q.Bad = "snapshotBytes"
+		} else if applied != nil {
+			vi.Data = applied
+		}
+		return q, len(c.wbuf) - rd.Len(), true
+	}
+	return VProbeReq{Kind: "garbage", Bad: "rpcType"}, len(c.wbuf), true
+}
+
+func (c *verifScriptConn) Write(b []byte) (int, error) {
+	select {
+	case <-c.closed:
+		return 0, io.ErrClosedPipe
+	default:
+	}
+	pipelined := verifInPipelineWriter()
+	c.mu.Lock()
+	c.wbuf = append(c.wbuf, b...)
+	got := false
+	for len(c.wbuf) > 0 {
+		q, used, ok := c.parse()
+		if !ok {
+			break
+		}
+		c.wbuf = c.wbuf[used:]
+		q.Pipelined = pipelined
+		q.St = c.v.State()
+		c.events = append(c.events, q)
+		got = true
+	}
+	c.mu.Unlock()
+	if got {
+		select {
+		case c.notify <- struct{}{}:
+		default:
+		}
+	}
+	return len(b), nil
+}
+
+// Read blocks until the harness supplies bytes; deadlines are ignored (the harness bounds the run).
+func (c *verifScriptConn) Read(b []byte) (int, error) {
+	for {
+		c.mu.Lock()
+		if len(c.cur) > 0 {
+			n := copy(b, c.cur)
+			c.cur = c.cur[n:]
+			c.mu.Unlock()
+			return n, nil
+		}
+		c.mu.Unlock()
+		select {
+		case <-c.closed:
+			return 0, io.ErrClosedPipe
+		case x := <-c.in:
+			if x == nil {
+				return 0, io.EOF
+			}
+			c.mu.Lock()
+			c.cur = x
+			c.mu.Unlock()
+		}
+	}
+}
+
+func (c *verifScriptConn) Close() error {
+	c.closeMu.Do(func() { close(c.closed) })
+	return nil
+}
+
+func (c *verifScriptConn) take() (VProbeReq, bool) {
+	c.mu.Lock()
+	defer c.mu.Unlock()
+	if len(c.events) == 0 {
+		return VProbeReq{}, false
+	}
+	q := c.events[0]
+	c.events = c.events[1:]
+	return q, true
+}
+
+func (c *verifScriptConn) pending() int {
+	c.mu.Lock()
+	defer c.mu.Unlock()
+	return len(c.events)
+}
+
+func verifNote(u replUpdate) VReplNote {
+	switch x := u.update.(type) {
+	case matchIndex:
+		return VReplNote{"matchIndex", x.val}
+	case newTerm:
+		return VReplNote{"newTerm", x.val}
+	case removeLTE:
+		return VReplNote{"removeLTE", x.val}
+	case noContact:
+		return VReplNote{"noContact", 0}
+	}
+	return VReplNote{"other", 0}
+}
+
+func verifEncodeResp(p VProbeResp) []byte {
+	b := new(bytes.Buffer)
+	base := resp{p.Term, rpcResult(p.Result), nil}
+	if rpcResult(p.Result) == unexpectedErr {
+		base.err = errVerifDial
+	}
+	switch p.Kind {
+	case "append":
+		_ = (&appendResp{base, p.LastLogIndex}).encode(b)
+	case "install":
+		_ = (&installSnapResp{base}).encode(b)
+	default:
+		return nil
+	}
+	return b.Bytes()
+}
+
+// RunProbe runs the real replicate() on this replication until its first pipelined request has been
+// answered, it returns, or a bound is hit. answer is called on the caller's goroutine, while the loop
+// is blocked reading the response; it may move the leader and call PushLeaderUpdate.
+func (v *VerifRepl) RunProbe(cfg VProbeCfg, answer func(k int, q VProbeReq) VProbeResp) VProbeReport {
+	rep := VProbeReport{Exchanges: []VProbeExchange{}, Notes: []VReplNote{}}
+	r := v.r
+	if cfg.HbTimeout > 0 {
+		r.hbTimeout = cfg.HbTimeout
+	}
+	if cfg.Watchdog <= 0 {
+		cfg.Watchdog = 2 * time.Second
+	}
+	r.stopCh = make(chan struct{}) // a previous run closed it
+	sc := newVerifScriptConn(v)
+	v.c = &conn{rwc: sc, bufr: bufio.NewReader(sc), bufw: bufio.NewWriter(sc)}
+	done := make(chan struct{})
+	var errClass, panicClass string
+	go func() {
+		defer close(done)
+		defer func() {
+			if p := recover(); p != nil {
+				panicClass = verifPanicClass(p)
+			}
+		}()
+		errClass = verifErrClass(r.replicate(v.c, v.req))
+	}()
+	collect := func() {
+		for {
+			select {
+			case u := <-v.upCh:
+				rep.Notes = append(rep.Notes, verifNote(u))
+				continue
+			default:
+			}
+			return
+		}
+	}
+	finished := false
+	for rep.End == "" {
+		q, ok := sc.take()
+		if !ok {
+			select {
+			case <-sc.notify:
+				continue
+			case <-done:
+				rep.End, finished = "returned", true
+			case <-time.After(cfg.Watchdog):
+				rep.End = "watchdog"
+			}
+			continue
+		}
+		if cfg.MaxExchanges > 0 && len(rep.Exchanges) >= cfg.MaxExchanges {
+			rep.End, rep.Unanswered = "maxExchanges", &q
+			break
+		}
+		k := len(rep.Exchanges)
+		collect() // everything the loop told the leader before it wrote this request
+		p := answer(k, q)
+		rep.Exchanges = append(rep.Exchanges, VProbeExchange{q, p})
+		sc.in <- verifEncodeResp(p)
+		if q.Pipelined {
+			// the acknowledgement of new entries is reported to the leader: wait for that note, so that
+			// closing stopCh cannot race with notifyLdr
+			if q.Append != nil && p.Kind == "append" && rpcResult(p.Result) == success &&
+				q.Append.PrevLogIndex+uint64(len(q.Append.Entries)) > q.St.MatchIndex {
+				select {
+				case u := <-v.upCh:
+					rep.Notes = append(rep.Notes, verifNote(u))
+				case <-done:
+				case <-time.After(cfg.Watchdog):
+				}
+			}
+			rep.End = "pipelined"
+		}
+	}
+	if !finished {
+		close(r.stopCh)
+		// a loop blocked reading the response of a further pipelined request does not look at stopCh: the
+		// real connection would time out after 2*hbTimeout, here the connection is closed
+		select {
+		case <-done:
+		case <-time.After(4 * r.hbTimeout):
+			// unblock a reader, then give up
+			_ = sc.Close()
+			select {
+			case <-done:
+			case <-time.After(cfg.Watchdog):
+				rep.End = rep.End + "+stuck"
+				collect()
+				rep.Extra += sc.pending()
+				return rep
+			}
+		}
+	}
+	collect()
+	rep.Extra += sc.pending()
+	rep.Err, rep.Panic = errClass, panicClass
+	rep.St = v.State()
+	return rep
+}
+
+// PushLeaderUpdate delivers the leaderUpdate the leader would send now, the way leader.notifyFlr does
+// (an update still waiting in the channel is replaced), without calling onLeaderUpdate: the running
+// replicate() picks it up in checkLeaderUpdate.
+func (v *VerifRepl) PushLeaderUpdate(withConfig bool) (VLeaderUpd, bool) {
+	l := v.n.l
+	u := leaderUpdate{log: l.log.ViewAt(l.removeLTE, l.lastLogIndex), commitIndex: l.commitIndex}
+	if u.log == nil {
+		return VLeaderUpd{}, false
+	}
+	out := VLeaderUpd{Prev: u.log.PrevIndex(), Last: u.log.LastIndex(), Commit: u.commitIndex}
+	if withConfig {
+		u.config = &l.configs.Latest
+		voter := u.config.Nodes[v.r.status.id].Voter
+		out.Voter = &voter
+	}
+	select {
+	case v.r.leaderUpdateCh <- u:
+	case <-v.r.leaderUpdateCh:
+		v.r.leaderUpdateCh <- u
+	}
+	return out, true
+}
+
+func (v *VerifRepl) verifUpd(u leaderUpdate) VLeaderUpd {
+	out := VLeaderUpd{Prev: u.log.PrevIndex(), Last: u.log.LastIndex(), Commit: u.commitIndex}
+	if u.config != nil {
+		voter := u.config.Nodes[v.r.status.id].Voter
+		out.Voter = &voter
+	}
+	return out
+}
+
+// PendingLeaderUpdate reports the leaderUpdate waiting in the replication's channel (left there by an
+// earlier run that ended before checkLeaderUpdate took it), leaving it in place. Call between runs only.
+func (v *VerifRepl) PendingLeaderUpdate() (VLeaderUpd, bool) {
+	select {
+	case u := <-v.r.leaderUpdateCh:
+		v.r.leaderUpdateCh <- u
+		return v.verifUpd(u), true
+	default:
+		return VLeaderUpd{}, false
+	}
+}
+
+// DropPendingLeaderUpdate removes a waiting leaderUpdate (the leader's notifyFlr replaces it by a newer one;
+// the harness then delivers the newer one itself). Call between runs only.
+func (v *VerifRepl) DropPendingLeaderUpdate() bool {
+	select {
+	case <-v.r.leaderUpdateCh:
+		return true
+	default:
+		return false
+	}
+}
+
+// ViewStale tells whether the leader compacted its log beyond the view this replication holds (a
+// leaderUpdate is due before the view may be read again).
+func (v *VerifRepl) ViewStale() bool {
+	return v.r.log == nil || v.r.log.PrevIndex() < v.n.l.log.PrevIndex()
+}
